@@ -11,6 +11,8 @@
   check, repaired by a fix: commit in /repo.
 -/
 import GoldilocksVerif.Lemmas.ExtF
+import GoldilocksVerif.Lemmas.ExtIrred
+import GoldilocksVerif.Lemmas.ExtBatch
 
 namespace GoldilocksVerif.C09
 open GoldilocksVerif Gen.Ext Model
@@ -98,11 +100,21 @@ theorem C09_div (a : E3) (b : BitVec 64) :
 theorem C09_mulScalar (a : E3) (s : String) (x : Int) (h : parseInt 10 s = some x) :
     ∃ r, g3mulScalar a s = some r ∧ denE r = K3.mul (denE a) (K3.ofBase (x : F)) := g3mulScalar_den a s x h
 
-/- FULL STATEMENT (not yet proved):
-     theorem C09_inv (a : E3) (h : denE a ≠ K3.zero) : ∃ r, g3inv a = some r ∧ K3.mul (denE r) (denE a) = K3.one
-   What is missing is the algebraic fact  a ≠ 0 → t(a) ≠ 0  (t = -Norm(a)), i.e. that x^3 - x - 1 is irreducible over
-   F_p (plan: DESIGN.md §4 C09 steps 2-3).  Proved below: the inverse property whenever the routine returns at all,
-   and the exact characterisation of when it does (t(a) = 0).  -/
+/-- x³ − x − 1 has no root in F_p, so F_p[x]/(x³ − x − 1) is a field: the quantity t of `Goldilocks3::inv` (minus the norm)
+    vanishes only at the zero element (Lemmas/ExtIrred.lean: x^p computed in the kernel, Fermat, an explicit Bézout identity) -/
+theorem C09_irreducible : (∀ r : F, r ^ 3 ≠ r + 1) ∧ (∀ a : K3, K3.tval a = 0 ↔ a = K3.zero) :=
+  ⟨cubic_no_root, K3.tval_eq_zero_iff⟩
+
+/-- inversion of every non-zero element (any representation of the coefficients) returns, and result · a = 1 -/
+theorem C09_inv (a : E3) (h : denE a ≠ K3.zero) : ∃ r, g3inv a = some r ∧ K3.mul (denE r) (denE a) = K3.one := by
+  cases hi : g3inv a with
+  | none => exact absurd ((g3inv_none_iff a).mp hi) h
+  | some r => exact ⟨r, rfl, (g3inv_den a).2 r hi⟩
+
+/-- inversion is refused exactly on the zero class (every representation of 0) -/
+theorem C09_inv_refusal (a : E3) : g3inv a = none ↔ denE a = K3.zero := g3inv_none_iff a
+
+/- The earlier, weaker form (kept: it does not depend on the irreducibility argument). -/
 theorem C09_inv_partial (a : E3) :
     (g3inv a = none ↔ K3.tval (denE a) = 0) ∧
     (∀ r, g3inv a = some r → K3.mul (denE r) (denE a) = K3.one) ∧
@@ -113,10 +125,37 @@ theorem C09_inv_partial (a : E3) :
   | none => exact absurd (h1.mp hi) ht
   | some r => exact ⟨r, rfl, h2 r hi⟩
 
-/- FULL STATEMENT (not yet proved): batch inversion equals element-wise inversion for every array length >= 1:
-     g3batchInverse src = some res → res.length = src.length ∧ ∀ i, K3.mul (denE res[i]) (denE src[i]) = K3.one
-   The model `Model.g3batchInverse` (prefix products, one inversion, backward sweep) is tied to the code by the
-   correspondence run for lengths 1..66 and every output element is compared with the specification there. -/
+/-- batch inversion (prefix products, one inversion, backward sweep) equals element-wise inversion for every array
+    length ≥ 1: it is refused exactly for the empty array or when some element is zero, and whenever it returns, the result
+    has the length of the input and res[i] · src[i] = 1 for every i.  The model `Model.g3batchInverse` is tied to the code by
+    the correspondence run (lengths 1..66, every output element compared). -/
+theorem C09_batchInverse (src : List E3) :
+    (g3batchInverse src = none ↔ src = [] ∨ ∃ x ∈ src, denE x = K3.zero) ∧
+    (∀ res, g3batchInverse src = some res →
+      res.length = src.length ∧
+      ∀ (i : Nat) (h1 : i < res.length) (h2 : i < src.length), K3.mul (denE res[i]) (denE src[i]) = K3.one) ∧
+    ((∀ x ∈ src, denE x ≠ K3.zero) → src ≠ [] →
+      ∃ res, g3batchInverse src = some res ∧ res.length = src.length ∧
+        ∀ (i : Nat) (h1 : i < res.length) (h2 : i < src.length), K3.mul (denE res[i]) (denE src[i]) = K3.one) := by
+  have hsome : ∀ res, g3batchInverse src = some res →
+      res.length = src.length ∧
+      ∀ (i : Nat) (h1 : i < res.length) (h2 : i < src.length), K3.mul (denE res[i]) (denE src[i]) = K3.one := by
+    intro res h
+    have hf := g3batchInverse_forall2 src res h
+    exact ⟨hf.length_eq, fun i h1 h2 => List.Forall₂.get hf h1 h2⟩
+  refine ⟨g3batchInverse_none_iff src, hsome, fun hnz hne => ?_⟩
+  cases hb : g3batchInverse src with
+  | none =>
+    rcases (g3batchInverse_none_iff src).mp hb with h | ⟨x, hx, h0⟩
+    · exact absurd h hne
+    · exact absurd h0 (hnz x hx)
+  | some res => exact ⟨res, rfl, hsome res hb⟩
+
+/-- the inverse is unique, so `inv` and `batchInverse` agree element-wise as field elements -/
+theorem C09_batchInverse_eq_inv (src res : List E3) (h : g3batchInverse src = some res) (i : Nat)
+    (h1 : i < res.length) (h2 : i < src.length) (r : E3) (hr : g3inv src[i] = some r) : denE res[i] = denE r := by
+  have hf := g3batchInverse_forall2 src res h
+  exact K3.inv_unique _ _ _ (List.Forall₂.get hf h1 h2) ((g3inv_den _).2 r hr)
 
 /-- non-vacuity: an element with non-canonical coefficients that is one -/
 example : den3 (Region.ofList [18446744069414584322#64, 18446744069414584321#64, 0#64]) = K3.one := by
